@@ -13,6 +13,12 @@ ScNum1 == { Num(w, en, <<x>>) : w \in {1, 2, 4, 8}, en \in {"big", "little"}, x 
 ScNum2 == { Num(w, en, <<x, y>>) : w \in {1, 2, 4}, en \in {"big", "little"}, x \in Vals(2), y \in {V(FALSE, <<7>>), V(TRUE, <<1>>), V(FALSE, <<0, 0, 1>>)} }
 ScNum3 == { Num(w, "little", <<V(FALSE, <<1>>), V(FALSE, <<2, 1>>), V(TRUE, <<3>>)>>) : w \in {1, 2, 4, 8} }
 
+\* lists whose values are character codes: the harness writes them as quoted characters ('H', 'i') - a list of quoted characters is a
+\* list of values, not one string, whatever it begins and ends with
+ScNumChars == { Num(w, en, vals) : w \in {1, 2}, en \in {"big", "little"},
+                vals \in { <<V(FALSE, <<72>>), V(FALSE, <<105>>)>>, <<V(FALSE, <<111>>), V(FALSE, <<107>>), V(FALSE, <<33>>)>>,
+                           <<V(FALSE, <<97>>), V(FALSE, <<10>>), V(FALSE, <<122>>)>>, <<V(FALSE, <<59>>), V(FALSE, <<44>>)>>, <<V(FALSE, <<72>>)>> } }
+
 \* character codes: a space newline tab backslash dquote A(hex escape) semicolon squote NUL comma hash
 \* 321 = U+0141, written \u0141: a character beyond 8 bits still emits ONE byte (its low byte)
 \* 200 is written \xc8: a hex escape above 0x7f is still one byte
@@ -27,6 +33,6 @@ ScFill == { Fil("fill", n, v, 0) : n \in 0..3, v \in {0, 1, 255, 256, 263, -1, -
           \cup { Fil("zero", n, 0, 0) : n \in {16, 17, 256, 257, 300, 700, 1025} }
           \cup { Fil("zuntil", a, 0, c) : a \in {255, 256, 257, 299, 1023, 1024}, c \in {0, 4} }
           \cup { Fil("zuntil", a, 0, c) : a \in 0..9, c \in {0, 4, 7} }
-ScQuick == ScNum1 \cup ScNum2 \cup ScNum3 \cup ScStr(2) \cup ScFill
-ScThorough == ScNum1 \cup ScNum2 \cup ScNum3 \cup ScStr(3) \cup ScFill
+ScQuick == ScNumChars \cup ScNum1 \cup ScNum2 \cup ScNum3 \cup ScStr(2) \cup ScFill
+ScThorough == ScNumChars \cup ScNum1 \cup ScNum2 \cup ScNum3 \cup ScStr(3) \cup ScFill
 =============================================================================
